@@ -284,4 +284,16 @@ def converge (t : Task) (db : DB) (script : Script) (fault : Option Pos) : Resul
                                 else { outcome := .ok last.num, db := { cur := db1.cur ++ [c], rows := db1.rows ++ newRows }, mid := some db1 }
     loop 1001 { db := db, view := db, script := script }
 
+/-! ### `PruneTask` (shovel/task.go), run every ten minutes next to the indexing steps -/
+
+/-- `delete from shovel.task_updates where (src_name, ig_name, num) not in (select … row_number()
+    over (partition by src_name, ig_name order by num desc) … where rn <= $1)`: for every
+    (source, integration) pair keep the `n` recorded positions with the largest numbers — a position
+    stays iff fewer than `n` positions of its own pair carry a larger number (numbers are unique
+    within a pair by the table's unique index, so `row_number` has no ties to break). -/
+def prune (n : Nat) (db : DB) : DB :=
+  let keep (c : Cur) : Bool :=
+    ((db.cur.filter fun o => o.src == c.src && o.ig == c.ig && o.num > c.num).length < n)
+  { db with cur := db.cur.filter keep }
+
 end Shovel.World
